@@ -1,6 +1,6 @@
 Require Extraction.
 Require Import ExtrOcamlBasic.
-From Herc Require Import Base.Conv Plumbing.Ticks.
+From Herc Require Import Base.Conv Plumbing.Ticks Plumbing.TicksLife.
 Extraction "c19_model.ml" conv_anchor time_of_unix configure init_sys step run lineages consumed spec_t0 spec_tick tick_chain chain_verdicts
   nondecreasing reg_count listed shape mono_times replays_ok elapsed_ticks alone floor_ok floor_time in_range
-  z_pack z_unpack ticks times.
+  z_pack z_unpack ticks times consume_branch consume_branch_fast reg_get only_consumed reconfigure_same_facts.
